@@ -291,7 +291,13 @@ class G:
                         else:
                             items.append(["action", r.choice(ACTIONS), []])
                     return ["await_group", [r.choice(["and", "or"])] + items]
-        if x < 0.97:
+        if x < 0.955 and self.nflows > 1:
+            # internal control events addressed to another flow by name
+            j = r.randrange(1, self.nflows)
+            kind = r.choice(["FinishFlow", "FinishFlow", "StopFlow"])
+            self.feats.add("send-" + kind)
+            return ["send", kind, [["flow_id", '"' + self.flows_meta[j]["name"] + '"']]]
+        if x < 0.975:
             self.feats.add("assign")
             v = self.var("v")
             self.declared.setdefault(fi, []).append(v)
